@@ -38,6 +38,7 @@ META = {
         "identifier kernel: names = sequences of <= 3 symbols over a 19-symbol class-representative alphabet (a B 1 _ - . space é ² class None type value 9x Class IN def_ any From), every NameCase, default and two alternative safe prefixes",
         "pipeline: hostile name triples from pools of ~22 (JSON keys via DictMapper; NCName-legal element / attribute / type names of a tiny XSD via SchemaParser+SchemaMapper), then the REAL ClassContainer.process() and Filters, "
         "for structure styles x compound fields x unnest as partitions",
+        "pipeline_graph: all 64 reference graphs on three named complex types (chains, 2- and 3-cycles) x structure styles: cluster designation and the imports that follow",
         "pipeline_multi: a set of three schemas (two imported namespaces / files + an importing one); type-name triples from a pool of 12 (equal, case-colliding, reserved, punctuated), references inside a repeating choice or a sequence, "
         "optional cross-reference between the imported schemas; mapped in ResourceTransformer order",
         "module scoping oracle (harness/multins.scope_problem): per module every import (alias or name) and class is bound once and every type reference - attribute types, compound choice types, extensions - rendered as class_name(alias or name) is bound to the class it means",
@@ -300,6 +301,33 @@ def _pipeline_multi(na, nb, nc, choice, cross, part):
         return None
 
 
+def pipeline_graph(e0: bool, e1: bool, e2: bool, e3: bool, e4: bool, e5: bool) -> bool:
+    """
+    post: _
+    """
+    bits = [bool(concretize(int(b), 2)) for b in (e0, e1, e2, e3, e4, e5)]
+    with untraced():
+        return result(_pipeline_graph(bits, PART) is None)
+
+
+def _pipeline_graph(bits, part):
+    """Reference graphs on three named types (every subset of the 6 directed edges: chains, 2-cycles, 3-cycles, self-contained
+    clusters) through the real pipeline; what matters here is module designation (clusters) and the imports that follow from it."""
+    from harness import c12
+    from xsdata.codegen.mappers.schema import SchemaMapper
+    from xsdata.codegen.parsers.schema import SchemaParser
+
+    cfg = _config(part)
+    try:
+        classes = SchemaMapper.map(SchemaParser(location="file:///t.xsd").from_string(c12._xsd(bits)))
+        container = ClassContainer(config=cfg)
+        container.extend(classes)
+        container.process()
+        return _check_container(container, cfg)
+    except CodegenError:
+        return None
+
+
 def explain_names(c0, c1, c2, n):
     return _names_ok("".join([ALPHA[c0], ALPHA[c1], ALPHA[c2]][:n]))
 
@@ -309,6 +337,7 @@ EXPLAIN = {
     "names": explain_names,
     "pipeline_json": lambda k0, k1, k2: {"keys": [JKEYS[k0], JKEYS[k1], JKEYS[k2]], "problem": _pipeline_json(JKEYS[k0], JKEYS[k1], JKEYS[k2], PART)},
     "pipeline_xsd": lambda k0, k1, k2: {"names": [XNAMES[k0], XNAMES[k1], XNAMES[k2]], "problem": _pipeline_xsd(XNAMES[k0], XNAMES[k1], XNAMES[k2], PART)},
+    "pipeline_graph": lambda e0, e1, e2, e3, e4, e5: {"edges": [e for b, e in zip([e0, e1, e2, e3, e4, e5], __import__("harness.c12", fromlist=["EDGES"]).EDGES) if b], "problem": _pipeline_graph([e0, e1, e2, e3, e4, e5], PART)},
     "pipeline_multi": lambda k0, k1, k2, choice, cross: {"names": [MNAMES[k0], MNAMES[k1], MNAMES[k2]], "problem": _pipeline_multi(MNAMES[k0], MNAMES[k1], MNAMES[k2], choice, cross, PART)},
 }
 
@@ -338,6 +367,10 @@ def plan(tier):
             if not quick and (ci - k0 * 3 - 1) % len(combos) not in THOROUGH_ROT:
                 continue
             jobs.append(Job("pipeline_xsd", {"k0": k0, "style": s, "compound": c, "unnest": u}, 600, 60, note="selector driven"))
+    for ci, (s, c, u) in enumerate(combos):
+        if quick and (c, u) != (0, 0):
+            continue
+        jobs.append(Job("pipeline_graph", {"style": s, "compound": c, "unnest": u}, 600, 60, note="selector driven: all 64 reference graphs on three types"))
     for k0 in range(len(MNAMES)):
         for ci, (s, c, u) in enumerate(combos):
             if quick and ci != (k0 * 3 + 2 + 10 * (k0 % 2)) % len(combos):
